@@ -615,8 +615,10 @@ def gen_tree_events(rng, n, nfam):
     for sh in shnums[:rng.randrange(1, n + 1)]:
         r = rng.random()
         fam = 0 if rng.random() < 0.5 else rng.randrange(nfam)
-        if r < 0.7:
+        if r < 0.6:
             evs.append("o:%d:%d" % (sh, fam))
+        elif r < 0.72 and n >= 3:
+            evs.append("t:%d:%d" % (sh, fam))     # consistent share whose chain names only the sibling leaf
         elif r < 0.85:
             evs.append("d:%d:%d:%d" % (sh, fam, rng.randrange(3)))
         else:
@@ -662,10 +664,13 @@ def run_tree_events_impl(seedfam, n, evs, nfam=3):
             out.append("r")
             continue
         fam = int(t[2])
-        blk = block[(fam, sh)] if t[0] == "o" else b"damaged block %s" % t[3].encode()
+        blk = block[(fam, sh)] if t[0] in "ot" else b"damaged block %s" % t[3].encode()
         tree = trees[fam]
         # as _get_needed_hashes: share hashes are requested only while the tree still needs some for this share
         sharehashes = {i: tree[i] for i in tree.needed_hashes(sh)} if r.share_hash_tree.needed_hashes(sh) else {}
+        if t[0] == "t" and sharehashes:
+            sib = tree.sibling(tree.first_leaf_num + sh)
+            sharehashes = {sib: tree[sib]}          # the chain stops right above the leaves
         blockhashes = [hashutil.block_hash(blk)]
         box = []
         d = r._validate_block(((blk, b"i" * 16), blockhashes, sharehashes), 0, reader, reader.server, 0.0)
@@ -687,7 +692,9 @@ def run_tree_events_impl(seedfam, n, evs, nfam=3):
 def retrieve_tree_cases(ctx, count):
     import grid
     lines, impls, cases = [], [], []
-    corpus = [(0, 5, ["o:0:1", "o:1:1", "o:2:1", "o:3:0", "o:4:0"]),          # the reset-variant history
+    corpus = [(0, 4, ["t:0:1", "t:1:1", "o:2:0", "o:3:0"]),                   # the surplus-variant history
+              (0, 8, ["o:5:0", "t:2:2", "t:3:2", "t:6:1", "o:7:0"]),
+              (0, 5, ["o:0:1", "o:1:1", "o:2:1", "o:3:0", "o:4:0"]),          # the reset-variant history
               (0, 4, ["d:0:0:1", "o:1:1", "o:2:1", "o:3:0"]),
               (0, 4, ["x:0", "o:1:2", "o:2:2", "o:3:0"]),
               (None, 4, ["o:0:1", "o:1:1", "o:2:0"]), (None, 3, ["o:2:1", "x:0", "o:1:1"])]
@@ -699,6 +706,9 @@ def retrieve_tree_cases(ctx, count):
                 n = ctx.rng.choice([2, 3, 4, 5, 8, 10])
                 seedfam = None if ctx.rng.random() < 0.15 else ctx.rng.randrange(3)
                 evs = gen_tree_events(ctx.rng, n, 3)
+                # a chain that stops below the root: only for shares of another family than the seeded one (a genuine leaf
+                # may legitimately be bridged to the root by nodes the tree already knows; the model does not keep those)
+                evs = [("o" + e[1:]) if e[0] == "t" and (seedfam is None or int(e.split(":")[2]) == seedfam) else e for e in evs]
                 if seedfam is None:
                     # without a trusted root the real tree also keeps the inner nodes of whatever it adopted
                     # (the model keeps the root only): compare on internally consistent shares only
@@ -714,7 +724,7 @@ def retrieve_tree_cases(ctx, count):
             if seedfam is not None:
                 for ev, res in zip(evs, impl.split(" | ")[0]):
                     t = ev.split(":")
-                    if res == "a" and (t[0] == "d" or int(t[2]) != seedfam):
+                    if res == "a" and (t[0] == "d" or int(t[2]) != seedfam):   # (t events are generated for other families only)
                         ctx.violation("Retrieve validated a share that does not hash to the signed root", case,
                                       "forged-content-accepted:retrieve-tree")
             rejected_before = any(x == "r" for x in impl.split(" | ")[0][:-1])
@@ -1121,12 +1131,154 @@ def two_verinfos_corpus(ctx):
     ctx.compare("offsets tuple inside verinfo (canonical order, whichever proxy made it)", ot_cases, ot_impls, ctx.model(ot_lines))
 
 
+# ----------------------------------------------------------------------------- share hash chain rewritten in place
+
+def _rewrite_chain(data, records):
+    """Replace the (index, hash) records of the share hash chain, same length."""
+    (a, b) = share_fields(data)["share_hash_chain"]
+    blob = b"".join(struct.pack(">H32s", i, h) for (i, h) in records)
+    assert len(blob) == b - a, (len(blob), b - a)
+    return data[:a] + blob + data[b:]
+
+
+def chain_rewrite_scenario(ctx, prm):
+    """Sibling shares (2p, 2p+1) carry forged blocks with a recomputed block hash tree; the records of
+    their share hash chains are rewritten in place (same number of records, so offsets, version identity
+    and signed prefix are untouched) so that the chain does not reach up to the signed root:
+      sibling   every record names the sibling leaf (forged value)
+      below:L   records for nodes deeper than level L are the forged family's, the rest repeat the sibling record
+      junk      the sibling leaf plus irrelevant indices (a far leaf, an index beyond the tree) and duplicates
+    The other shares are intact or deleted.  Whatever the delivery order: the read returns a published
+    version or fails; it succeeds when k intact shares remain."""
+    import grid
+    import random as _random
+    from allmydata import uri, hashtree
+    from allmydata.mutable import publish
+    from allmydata.mutable.publish import MutableData
+    from allmydata.interfaces import SDMF_VERSION, MDMF_VERSION
+    fmt = SDMF_VERSION if prm["fmt"] == "SDMF" else MDMF_VERSION
+    k, n = prm["k"], prm["n"]
+    saved_seg = publish.DEFAULT_MUTABLE_MAX_SEGMENT_SIZE
+    publish.DEFAULT_MUTABLE_MAX_SEGMENT_SIZE = prm["maxseg"]
+    try:
+        with grid.Runtime(seed=prm["seed"], policy=prm["policy"]) as rt:
+            g = grid.Grid(grid.fresh_dir("c10h"), rt, num_servers=n, k=k, happy=1, n=n)
+            try:
+                c = g.clients[0]
+                size = prm["size"]
+                v1 = (b"version one, published by the write-cap holder. " * (size // 40 + 1))[:size]
+                v2 = (b"version TWO, published by the write-cap holder. " * (size // 40 + 1))[:size]
+                node = rt.wait(c.create_mutable_file(MutableData(v1), version=fmt))
+                rt.wait(node.overwrite(MutableData(v2)))
+                readcap = node.get_readonly_uri()
+                files = {sh: p for (_i, sh, p) in g.share_files(node.get_storage_index())}
+                if sorted(files) != list(range(n)):
+                    ctx.count("chain-rewrite:placement-incomplete")
+                    return
+                pristine = {sh: open(p, "rb").read() for sh, p in files.items()}
+                dlen = struct.unpack(">Q", pristine[0][84:92])[0]
+                one = pristine[0][DATA_OFFSET:DATA_OFFSET + dlen]
+                er = _random.Random(prm["seed"])
+                evil = bytes(er.randrange(256) for _ in range(size))
+                # forged blocks + recomputed block hash trees for every share number (a consistent family of their own)
+                forged = forge_consistent_shares(uri.from_string(readcap).readkey, one, evil)
+                leaf = {sh: forged[sh][slice(*share_fields(forged[sh])["block_hash_tree"])][:32] for sh in range(n)}
+                shape = hashtree.IncompleteHashTree(n)
+                ftree = hashtree.HashTree([leaf[sh] for sh in range(n)])
+                for ti, tr in enumerate(prm["trials"]):
+                    pair = [2 * tr["pair"], 2 * tr["pair"] + 1]
+                    for sh, p in files.items():
+                        raw = pristine[sh]
+                        if sh in pair:
+                            node_i = shape.first_leaf_num + sh
+                            sib = shape.sibling(node_i)
+                            (a, b) = share_fields(forged[sh])["share_hash_chain"]
+                            nrec = (b - a) // 34
+                            sibrec = (sib, ftree[sib])
+                            if tr["variant"] == "sibling":
+                                recs = [sibrec] * nrec
+                            elif tr["variant"].startswith("below:"):
+                                lvl = int(tr["variant"][6:])
+                                recs = [(i, ftree[i]) if hashtree.depth_of(i) > lvl else sibrec for i in sorted(ftree.needed_hashes(sh))]
+                                recs = (recs + [sibrec] * nrec)[:nrec]
+                            else:
+                                far = shape.first_leaf_num + (sh + n // 2 + 1) % n
+                                pool = [sibrec, (far, bytes(32)), (0xFFF0, b"\x55" * 32) if tr["variant"] == "junk+range" else sibrec, sibrec]
+                                recs = (pool * nrec)[:nrec]
+                            newdata = _rewrite_chain(forged[sh], recs)
+                            raw = raw[:DATA_OFFSET] + newdata + raw[DATA_OFFSET + len(newdata):]
+                        if sh in tr["deleted"] and sh not in pair:
+                            if os.path.exists(p):
+                                os.unlink(p)
+                            continue
+                        with open(p, "wb") as fh:
+                            fh.write(raw)
+                    intact = [sh for sh in range(n) if sh not in pair and sh not in tr["deleted"]]
+                    st, val = try_read(rt, fresh_node(c, readcap))
+                    case = {"family": "chain-rewritten", "params": dict(prm, trials=prm["trials"][:ti + 1]), "fmt": prm["fmt"], "k": k, "n": n,
+                            "pair": pair, "variant": tr["variant"], "deleted": tr["deleted"], "intact": len(intact), "result": st}
+                    if st == "ok" and val not in (v1, v2):
+                        ctx.violation("read returned bytes that no write-cap holder published: sibling shares with forged blocks and a share "
+                                      "hash chain that does not reach up to the signed root were accepted",
+                                      dict(case, got=val.hex()[:80]), "forged-content-accepted:chain-rewritten")
+                    elif st == "stuck":
+                        ctx.violation("read never completed", case, "read-stuck:chain-rewritten")
+                    elif len(intact) >= k and st != "ok":
+                        ctx.violation("k intact shares of the newest version were reachable but the read failed", dict(case, got=val),
+                                      "newest-not-returned:chain-rewritten")
+                    ctx.case(repr((prm["fmt"], k, n, prm["seed"], prm["policy"], ti, tr["pair"], tr["variant"], tuple(tr["deleted"]))))
+                    ctx.count("chain-rewrite:%s:%s:%s" % (prm["fmt"], tr["variant"].split(":")[0], st))
+            finally:
+                g.close()
+    finally:
+        publish.DEFAULT_MUTABLE_MAX_SEGMENT_SIZE = saved_seg
+
+
+def chain_rewrite_corpus(ctx):
+    for fmt in ("SDMF", "MDMF"):
+        chain_rewrite_scenario(ctx, {"fmt": fmt, "k": 2, "n": 4, "seed": 11, "policy": "fifo", "maxseg": 16, "size": 90,
+                                     "trials": [{"pair": 0, "variant": "sibling", "deleted": []},
+                                                {"pair": 1, "variant": "sibling", "deleted": [0, 1]},
+                                                {"pair": 0, "variant": "junk", "deleted": [2, 3]}]})
+        chain_rewrite_scenario(ctx, {"fmt": fmt, "k": 3, "n": 10, "seed": 12, "policy": "lifo", "maxseg": 24, "size": 200,
+                                     "trials": [{"pair": 0, "variant": "sibling", "deleted": []},
+                                                {"pair": 0, "variant": "below:3", "deleted": []},
+                                                {"pair": 0, "variant": "below:2", "deleted": [2, 3, 4, 5, 6, 7, 8]},
+                                                {"pair": 0, "variant": "junk+range", "deleted": []},
+                                                {"pair": 1, "variant": "below:3", "deleted": [0, 1]},
+                                                {"pair": 2, "variant": "sibling", "deleted": [0, 1, 2, 3, 6, 7, 8]}]})
+
+
+def chain_rewrite_family(ctx, rounds):
+    combos = [(f, p) for p in ("random", "fifo", "lifo") for f in ("SDMF", "MDMF")]
+    for r in range(rounds):
+        fmt, policy = combos[r % len(combos)]
+        k, n = ctx.rng.choice([(2, 4), (3, 5), (3, 10), (2, 6), (3, 7), (2, 3)])
+        depth = max(1, (n - 1).bit_length())
+        trials = []
+        for _ in range(5):
+            pair = ctx.rng.randrange(n // 2)
+            variant = ctx.rng.choice(["sibling", "sibling", "junk", "junk+range"] + ["below:%d" % lv for lv in range(1, depth + 1)])
+            others = [sh for sh in range(n) if sh // 2 != pair]
+            # shares below the pair are mostly taken away so that the forged ones are tried first; 0..N-k others stay
+            deleted = [sh for sh in others if sh < 2 * pair and ctx.rng.random() < 0.85]
+            rest = [sh for sh in others if sh not in deleted]
+            keep = ctx.rng.randrange(0, len(rest) + 1)
+            deleted += sorted(ctx.rng.sample(rest, len(rest) - keep))
+            trials.append({"pair": pair, "variant": variant, "deleted": sorted(deleted)})
+        chain_rewrite_scenario(ctx, {"fmt": fmt, "k": k, "n": n, "seed": ctx.rng.randrange(1 << 30), "policy": policy,
+                                     "maxseg": ctx.rng.choice([16, 24, 50]), "size": ctx.rng.choice([33, 90, 200]), "trials": trials})
+
+
 def run(ctx):
     import common
     common.setup_impl_path()
     rc = (ctx.replay or {}).get("case") or {}
     if rc.get("family") == "consistent-forgery":
         forgery_scenario(ctx, rc["params"])
+        return
+    if rc.get("family") == "chain-rewritten":
+        chain_rewrite_scenario(ctx, rc["params"])
         return
     if rc.get("family") == "shared-server":
         shared_server_scenario(ctx, rc["params"])
@@ -1136,12 +1288,16 @@ def run(ctx):
         return
     offset_table_corpus(ctx)
     two_verinfos_corpus(ctx)
+    chain_rewrite_corpus(ctx)
+    if os.environ.get("VERIF_CORPUS_ONLY"):
+        return
     consistent_forgery_family(ctx, ctx.budget(12, 240))
     retrieve_tree_cases(ctx, ctx.budget(300, 20000))
     versionmap_cases(ctx, ctx.budget(300, 20000))
     retrieve_loop_cases(ctx, ctx.budget(300, 20000))
     prefix_alteration_family(ctx, ctx.budget(6, 120))
     shared_server_family(ctx, ctx.budget(6, 120))
+    chain_rewrite_family(ctx, ctx.budget(8, 160))
     single_share_cases(ctx, ctx.budget(3, 60))
     damaged_share_among_few_servers(ctx, ctx.budget(14, 200))
     campaign(ctx, ctx.budget(8, 300))
